@@ -261,7 +261,7 @@ def rule_e2(ctx):
                 res.bad(Finding("E2", f["id"], "scope %s" % kind, msg, sp))
         else:
             res.ok({"function": f["id"], "push_pop_calls": len(pushes), "verdict": "balanced on every path"})
-    if n_push < 5:
+    if (n_push < 5) and not res.findings:
         raise AnchorMissing("E2: expected the Env::push sites of compile.rs (6 on the pinned tree), found %d" % n_push)
     return res
 
@@ -359,7 +359,7 @@ def rule_e5(ctx):
                     res.bad(Finding("E5", f["id"], "get returns a reference", "Env::get returns %s: callers could alias a binding" % out, f["sp"]))
                 else:
                     res.ok({"function": f["id"], "returns": out})
-    if n < 5:
+    if (n < 5) and not res.findings:
         raise AnchorMissing("E5: expected projections into Env.0 in env.rs and mux_envs, found %d" % n)
     res.obligations += 1
     res.discharged += 0 if any(x.rule == "E5" for x in res.findings) else 1
